@@ -16,11 +16,11 @@ def float_text(rng, fd):
     return ("%.*" + fd["fmt"]) % (fd["dd"], rng.choice(FLOAT_POOL))
 
 
-def gen_line(rng):
+def gen_line(rng, kinds=("int", "lit", "int", "int", "lit", "int", "date", "float", "float")):
     fs = []
     pos = 0
     for _ in range(rng.randint(1, 3)):
-        k = rng.choice(["int", "lit", "int", "int", "lit", "int", "date", "float", "float"])
+        k = rng.choice(kinds)
         fd = {"k": k, "size": rng.randint(2, 5), "start": pos}
         if k == "float":
             fmt = rng.choice("FFE")
@@ -101,7 +101,10 @@ class CHECK(Check):
             "Class hierarchies: a register class may derive from an earlier register class of the case and declare its own LINE (parent/child, "
             "siblings, chains of three; 1-3 classes), so that registers of *related* classes are read and written in every order - every interleaving "
             "of length<=3 over a 6-operation alphabet on a parent and a child register (both orientations of the two layouts, complete) plus the "
-            "random interleavings; such cases count as non-trivial when two registers of related classes were operated on.")
+            "random interleavings; such cases count as non-trivial when two registers of related classes were operated on. "
+            "Real-valued fields (F and E notation, 1-3 decimals) whose texts and assigned values come from one pool of eleven numbers, so that the "
+            "same number - and the two zeros, equal under == but written differently - recurs through one Field object from several registers, "
+            "results and classes; one random case in seven is a short history (4-10 operations, six in ten of them a register read or written) over one class with real-valued fields only, ending with every register written once more in a random order.")
 
     def gen(self, tier, rng):
         import itertools
@@ -130,7 +133,11 @@ class CHECK(Check):
         for _ in range(nr):
             k = rng.random()
             nl = 1 if k < 0.45 else 2 if k < 0.88 else 3
-            lines = [gen_line(rng) for _ in range(nl)]
+            # one case in seven is a short history, mostly of reads and writes, over one class whose fields are all real-valued ("a column of numbers")
+            column = rng.random() < 0.15
+            if column:
+                nl = 1
+            lines = [gen_line(rng, ("float",)) if column else gen_line(rng) for _ in range(nl)]
             # class i derives from Register or from an earlier class of the case (and declares its own LINE)
             bases = [None] + [(rng.randrange(i) if rng.random() < 0.5 else None) for i in range(1, nl)]
             delims = [(";" if rng.random() < 0.3 else None) for _ in range(nl)]
@@ -139,8 +146,10 @@ class CHECK(Check):
             nregs, nlists, nfiles = 0, 0, 0
             reg_line = []
             list_line = []
-            for _ in range(rng.randint(3, 25)):
+            for _ in range(rng.randint(4, 10) if column else rng.randint(3, 25)):
                 k = rng.random()
+                if column and rng.random() < 0.6:
+                    k = rng.choice([0.2, 0.4])      # mostly registers read and written in turn
                 if nregs < 2 or (k < 0.12 and nregs < 4):
                     ln = rng.randrange(nl)
                     ops.append([0, ln])
@@ -181,6 +190,11 @@ class CHECK(Check):
                     ops.append([9, rng.randrange(nfiles)])
                 else:
                     ops.append([10, rng.randrange(nfiles), rng.randrange(nfiles)])
+            if column:
+                # the history ends with every register written once more, in a random order
+                order = list(range(nregs))
+                rng.shuffle(order)
+                ops.extend([2, r] for r in order)
             yield {"kind": "graph", "lines": lines, "delims": delims, "bases": bases, "ops": ops}
 
     # ---------------------------------------------------------------- implementation
@@ -585,7 +599,47 @@ class CHECK(Check):
                 d["related_classes_both_used"] = 1
         for op in case["ops"]:
             d["op_%d" % op[0]] = d.get("op_%d" % op[0], 0) + 1
+        kinds = [fd["k"] for fs in case["lines"] for fd in fs]
+        if "float" in kinds:
+            d["with_float_fields"] = 1
+            if set(kinds) == {"float"}:
+                d["float_fields_only"] = 1
+            if self.both_zeros_written(case):
+                d["both_zeros_through_one_float_field"] = 1
         return d
+
+    @staticmethod
+    def both_zeros_written(case):
+        """a zero of each sign is among the texts read / values assigned for one real-valued field (a count of what the generator
+        produced, for the evidence's input distribution; it plays no part in the verdict)"""
+        import math
+        delims = case.get("delims") or [None] * len(case["lines"])
+        seen = {}
+        for op in case["ops"]:
+            if op[0] == 5:
+                ln, vals = op[1], {op[2]: op[3]}
+            elif op[0] in (1, 3):
+                ln = CHECK.line_of(case, op)
+                toks = op[2].rstrip("\n").split(delims[ln]) if delims[ln] else None
+                vals = {}
+                for i, fd in enumerate(case["lines"][ln]):
+                    t = (toks[i] if i < len(toks) else "") if delims[ln] else op[2][fd["start"]:fd["start"] + fd["size"]]
+                    try:
+                        vals[i] = ["float", fl.f2b(float(t))]
+                    except ValueError:
+                        pass
+            else:
+                continue
+            for i, v in vals.items():
+                if case["lines"][ln][i]["k"] == "float" and v is not None and v[0] == "float" and fl.b2f(v[1]) == 0:
+                    seen.setdefault((ln, i), set()).add(math.copysign(1.0, fl.b2f(v[1])))
+        return any(len(v) == 2 for v in seen.values())
+
+    @staticmethod
+    def line_of(case, op):
+        if op[0] == 3:
+            return op[1]
+        return [o[1] for o in case["ops"] if o[0] == 0][op[1]]
 
     def signature(self, case, why):
         return why.split(":")[0]
